@@ -459,6 +459,9 @@ func Serve(opts Options) error {
 		return err
 	}
 	if opts.AppendOnly {
+		if err := restoreShrinkBackup(opts.AppendFileName); err != nil {
+			return err
+		}
 		f, err := os.OpenFile(opts.AppendFileName, os.O_CREATE|os.O_RDWR, 0600)
 		if err != nil {
 			return err
